@@ -29,9 +29,11 @@ def sym(name: str, exps=None, dec=0, atoms=None) -> AV:
 
 
 def analyse(repo: Repo, fq: str, args: Optional[Dict[str, AV]] = None, options: Optional[Dict[str, object]] = None,
-            max_depth: int = 4, local_stores: bool = False, **kw):
+            max_depth: int = 7, local_stores: bool = False, defaults: bool = True, schema_cols: bool = False, **kw):
     it = Interp(repo, schema_of(repo), max_depth=max_depth, **kw)
+    it.assume_schema_columns = schema_cols
     it.record_local_stores = local_stores
+    it.bind_defaults_at_entry = defaults
     if options:
         it.options = {k: (v if isinstance(v, AV) else const(v)) for k, v in options.items()}
     fi = repo.func(fq)
